@@ -24,6 +24,12 @@ const DEF_HEADER_SIZE: usize = 4096;
 /// 64K is big enough to hold any kind of qcow2 header
 const MAX_HEADER_SIZE: usize = 65536;
 
+/// How many images a backing chain may have
+pub const MAX_BACKING_DEPTH: u8 = 64;
+
+/// The biggest cluster, which header, extensions and backing file name share
+const MAX_CLUSTER_SIZE: usize = 2 << 20;
+
 /// Allocate one qcow2 device and qcow2 header needs to be parsed
 /// for allocating the device.
 pub fn qcow2_alloc_dev_sync<T: Qcow2IoOps>(
@@ -34,8 +40,16 @@ pub fn qcow2_alloc_dev_sync<T: Qcow2IoOps>(
     fn read_header(path: &Path, bytes: usize) -> Qcow2Result<Qcow2IoBuf<u8>> {
         use std::io::Read;
         let mut buf = Qcow2IoBuf::<u8>::new(bytes);
-        let mut file = std::fs::File::open(path).unwrap();
-        let _ = file.read(&mut buf).unwrap();
+        let mut file = std::fs::File::open(path)?;
+        let mut done = 0;
+        while done < bytes {
+            match file.read(&mut buf[done..])? {
+                0 => break,
+                n => done += n,
+            }
+        }
+        // what the file doesn't hold must not be parsed
+        buf[done..].fill(0);
         Ok(buf)
     }
 
@@ -44,7 +58,14 @@ pub fn qcow2_alloc_dev_sync<T: Qcow2IoOps>(
         Ok(h) => h,
         Err(_) => {
             let buf = read_header(path, MAX_HEADER_SIZE)?;
-            Qcow2Header::from_buf(&buf)?
+            match Qcow2Header::from_buf(&buf) {
+                Ok(h) => h,
+                Err(_) => {
+                    // the header's first cluster may be as big as 2 MiB
+                    let buf = read_header(path, MAX_CLUSTER_SIZE)?;
+                    Qcow2Header::from_buf(&buf)?
+                }
+            }
         }
     };
     let back_path = header.backing_filename().map(|s| PathBuf::from(s.clone()));
@@ -64,7 +85,9 @@ pub async fn qcow2_alloc_dev<T: Qcow2IoOps>(
 ) -> Qcow2Result<(Qcow2Dev<T>, Option<PathBuf>)> {
     async fn read_header<T: Qcow2IoOps>(io: &T, bytes: usize) -> Qcow2Result<Qcow2IoBuf<u8>> {
         let mut buf = Qcow2IoBuf::<u8>::new(bytes);
-        let _ = io.read_to(0, &mut buf).await?;
+        let done = std::cmp::min(io.read_to(0, &mut buf).await?, bytes);
+        // what the file doesn't hold must not be parsed
+        buf[done..].fill(0);
         Ok(buf)
     }
     let buf = read_header(&io, DEF_HEADER_SIZE).await?;
@@ -72,7 +95,14 @@ pub async fn qcow2_alloc_dev<T: Qcow2IoOps>(
         Ok(h) => h,
         Err(_) => {
             let buf = read_header(&io, MAX_HEADER_SIZE).await?;
-            Qcow2Header::from_buf(&buf)?
+            match Qcow2Header::from_buf(&buf) {
+                Ok(h) => h,
+                Err(_) => {
+                    // the header's first cluster may be as big as 2 MiB
+                    let buf = read_header(&io, MAX_CLUSTER_SIZE).await?;
+                    Qcow2Header::from_buf(&buf)?
+                }
+            }
         }
     };
     let back_path = header.backing_filename().map(|s| PathBuf::from(s.clone()));
@@ -94,6 +124,12 @@ macro_rules! qcow2_setup_dev_fn {
             path: &Path,
             params: &Qcow2DevParams,
         ) -> Qcow2Result<Qcow2Dev<$type>> {
+            // a missing image is an error to be returned, and a backing
+            // chain that names itself must not be followed for ever
+            std::fs::metadata(path)?;
+            if params.backing_depth() >= $crate::utils::MAX_BACKING_DEPTH {
+                return Err("backing chain is too deep (or refers to itself)".into());
+            }
             let io = <$type>::new(path, params.is_read_only(), params.is_direct_io()).await;
             let (mut dev, backing) = qcow2_alloc_dev(&path, io, params).await?;
             match backing {
@@ -124,6 +160,12 @@ qcow2_setup_dev_fn!(crate::tokio_io::Qcow2IoTokio, qcow2_setup_dev_tokio);
 macro_rules! qcow2_setup_dev_fn_sync {
     ($type:ty, $fn_name: ident) => {
         pub fn $fn_name(path: &Path, params: &Qcow2DevParams) -> Qcow2Result<Qcow2Dev<$type>> {
+            // a missing image is an error to be returned, and a backing
+            // chain that names itself must not be followed for ever
+            std::fs::metadata(path)?;
+            if params.backing_depth() >= $crate::utils::MAX_BACKING_DEPTH {
+                return Err("backing chain is too deep (or refers to itself)".into());
+            }
             let io = <$type>::new(path, params.is_read_only(), params.is_direct_io());
             let (mut dev, backing) = qcow2_alloc_dev_sync(&path, io, params)?;
             match backing {
